@@ -531,31 +531,34 @@ fn c16_parse_multiplicative() {
 }
 
 
-// NOT RUN (kept for the record): even for N = 1 this harness did not finish in 900 s -- parse_unary recurses into
-// itself (real code, fallible), which re-opens the error/drop-glue paths the operand stubs avoid.
-/// Unary level: a run of N prefix operators out of {'!', '~', '-'} in front of an operand must produce exactly that
-/// nest of LogicalNot / BitwiseNot / Negate nodes, outermost first, over an operand taken from the primary level -- in
-/// particular `!!x` is two nodes (GNU ld: `!!x` == (x != 0)).  One harness per N (the recursion depth is then concrete).
-fn parse_unary_nest<const N: usize>() {
-    let ops: [u8; N] = kani::any();
-    let mut buf = [b' '; 6];
-    let mut i = 0;
-    while i < N {
-        kani::assume(ops[i] == b'!' || ops[i] == b'~' || ops[i] == b'-');
-        buf[i] = ops[i];
-        i += 1;
-    }
-    buf[N] = b'7';
-    buf[N + 1] = b'+'; // something that does not belong to the unary level
-    let mut input: &BStr = BStr::new(&buf[..N + 2]);
+// Unary level.  A harness whose operator bytes are symbolic did not finish (900 s even for one operator): parse_unary
+// recurses into itself (real code, fallible) from three call sites, and with symbolic operator bytes CBMC unrolls all
+// 3^depth instances.  The operator run is therefore concrete per harness -- one harness for each of the 3 + 9 runs of
+// one or two operators out of {'!', '~', '-'} -- and what stays symbolic is the operand digit and the byte that
+// follows the operand.  parse_primary is replaced by the tagged atom stub like every other level.
+/// The run `A [B] <digit> <t>` must produce exactly the nest A(B(operand)) of LogicalNot / BitwiseNot / Negate nodes,
+/// outermost first, over an operand taken from the primary level, and leave `<t>` unconsumed -- in particular `!!x` is
+/// two nodes (GNU ld: `!!x` == (x != 0)).
+fn parse_unary_seq<const A: u8, const B: u8>() {
+    let d: u8 = kani::any();
+    let t: u8 = kani::any();
+    kani::assume(d >= b'0' && d <= b'9');
+    // natively the real parse_primary reads the operand: keep the byte after it out of the number (K/M suffix, digits)
+    let t = if under_kani() { t } else { b' ' };
+    let n: usize = if B == 0 { 1 } else { 2 };
+    let buf: [u8; 4] = if B == 0 { [A, d, t, 0] } else { [A, B, d, t] };
+    let mut input: &BStr = BStr::new(&buf[..n + 2]);
     let r = parse_unary(&mut input);
-    let Ok(tree) = r else { return };
+    let Ok(tree) = r else {
+        kani::cover!(true, "rejected");
+        return;
+    };
     kani::cover!(true, "accepted");
-    kani::cover!(N < 2 || (ops[0] == b'!' && ops[1] == b'!'), "double logical not");
     assert!(input.len() == 1, "C16.parse unary level consumes its operators and one operand, nothing more");
+    let ops = [A, B];
     let mut node: &Expression<'_> = &tree;
-    i = 0;
-    while i < N {
+    let mut i = 0;
+    while i < n {
         let (kind, inner): (u8, &Expression<'_>) = match node {
             Expression::LogicalNot(e) => (b'!', e),
             Expression::BitwiseNot(e) => (b'~', e),
@@ -566,14 +569,16 @@ fn parse_unary_nest<const N: usize>() {
         node = inner;
         i += 1;
     }
-    assert!(leaf_value(node) == Some(16 * T_PRIMARY + 7), "C16.parse unary operand comes from the primary level");
+    let want = if under_kani() { 16 * T_PRIMARY + (d & 15) as u64 } else { (d - b'0') as u64 };
+    assert!(leaf_value(node) == Some(want), "C16.parse unary operand comes from the primary level");
     std::mem::forget(tree);
 }
 
 macro_rules! unary_harness {
-    ($name:ident, $n:expr, $u:expr) => {
+    ($name:ident, $a:expr, $b:expr) => {
         #[kani::proof]
-        #[kani::unwind($u)]
+        #[kani::unwind(6)]
+        #[kani::stub(under_kani, stub_under_kani)]
         #[kani::stub(parse_logical_or, stub_logical_or)]
         #[kani::stub(parse_logical_and, stub_logical_and)]
         #[kani::stub(parse_bitwise_or, stub_bitwise_or)]
@@ -585,10 +590,19 @@ macro_rules! unary_harness {
         #[kani::stub(parse_multiplicative, stub_multiplicative)]
         #[kani::stub(parse_primary, stub_primary)]
         fn $name() {
-            parse_unary_nest::<$n>();
+            parse_unary_seq::<{ $a }, { $b }>();
         }
     };
 }
-unary_harness!(c16_parse_unary_1, 1, 4);
-unary_harness!(c16_parse_unary_2, 2, 5);
-unary_harness!(c16_parse_unary_3, 3, 6);
+unary_harness!(c16_parse_unary_not, b'!', 0);
+unary_harness!(c16_parse_unary_inv, b'~', 0);
+unary_harness!(c16_parse_unary_neg, b'-', 0);
+unary_harness!(c16_parse_unary_not_not, b'!', b'!');
+unary_harness!(c16_parse_unary_not_inv, b'!', b'~');
+unary_harness!(c16_parse_unary_not_neg, b'!', b'-');
+unary_harness!(c16_parse_unary_inv_not, b'~', b'!');
+unary_harness!(c16_parse_unary_inv_inv, b'~', b'~');
+unary_harness!(c16_parse_unary_inv_neg, b'~', b'-');
+unary_harness!(c16_parse_unary_neg_not, b'-', b'!');
+unary_harness!(c16_parse_unary_neg_inv, b'-', b'~');
+unary_harness!(c16_parse_unary_neg_neg, b'-', b'-');
